@@ -198,7 +198,15 @@ class Gen:
         e.attrs = self.attr_list(lang)
         binary = tag[0] == 't' and (tag[1][3] & 1)
         if binary:
-            k = r.below(6)
+            k = r.below(8)
+            if k >= 6:
+                # several content items separated by an element: every one of them is binary content
+                child = Elem(('t', r.choice(tags)))
+                if child.tag[1][3] & 1:
+                    child.content = [('o', b"x")]
+                last = ('o', r.bytes(r.range(1, 6))) if k == 6 else ('o', r.choice([b"CD", b"hello", b" x "]))
+                e.content = [('o', r.bytes(r.range(1, 6))), child, last]
+                return e
             if k >= 4:
                 e.content = [('o', r.choice([b"hello", b"AQID", b"a b", b"x"]))] if k == 4 else [('s', r.choice([b"hello", b"QUJD", b"x"]))]
                 return e
@@ -244,7 +252,9 @@ class Gen:
                 c = Elem(('t', t))
                 if t[3] & 1:
                     # binary-flagged: opaque bytes, and printable-only content (must still come out as base64)
-                    c.content = [('o', b"\x00\x01\xfe<&")] if (len(root.content) & 1) else [('s', b"hello")]
+                    k3 = len(root.content) % 3
+                    c.content = ([('o', b"\x00\x01\xfe<&")] if k3 == 0 else [('s', b"hello")] if k3 == 1
+                                 else [('o', b"\x01\x02"), Elem(('t', rootrow)), ('o', b"\x00\xff"), Elem(('t', rootrow)), ('s', b"CD")])
                 else:
                     c.content = [('s', b"a<&>\"'b")] if (i & 1) else [Elem(('t', t))]
                 root.content.append(c)
